@@ -218,9 +218,14 @@ func genC01(o *Out, rng *rand.Rand, tier string) {
 	}
 	// every option code with every small length, next to non-empty names (codes the library
 	// gives a meaning to must still be carried verbatim)
+	smallVals := [][]byte{{}, {0}, {1}, {2}, {3}, {255}, nil, {0, 1}, nil}
 	for code := 1; code <= 254; code++ {
-		for L := 0; L <= 4; L++ {
-			if tier != "thorough" && L == 3 {
+		for k, sv := range smallVals {
+			v := append([]byte{}, sv...)
+			if sv == nil {
+				v = randBytes(rng, []int{1, 0, 0, 0, 0, 0, 1, 0, 4}[k])
+			}
+			if tier != "thorough" && k == 8 && code%4 != 0 {
 				continue
 			}
 			p := randPacket4(rng, rng.Intn(2), []int{0, 1, 4})
@@ -229,10 +234,6 @@ func genC01(o *Out, rng *rand.Rand, tier string) {
 			}
 			p.ServerHostName = randNoNul(rng, 1+rng.Intn(63))
 			p.BootFileName = randNoNul(rng, 1+rng.Intn(127))
-			v := randBytes(rng, L)
-			if L > 0 && rng.Intn(2) == 0 {
-				v[0] = byte(pick(rng, 1, 2, 3, 255))
-			}
 			p.Options[uint8(code)] = v
 			emit(p, "every-code-small")
 		}
